@@ -211,7 +211,7 @@ pub fn build(rng: &mut Rng, kind: &'static str, pos: usize, nhealthy: usize, sma
                 };
                 c.raw = Some(raw);
                 if kind == "read-error" {
-                    c.read_err_kind = rng.below(3) as u8;
+                    c.read_err_kind = rng.below(4) as u8;
                 }
                 let n = c.chunks(client).len();
                 let when = rng.below(n + 1);
@@ -233,6 +233,7 @@ pub fn build(rng: &mut Rng, kind: &'static str, pos: usize, nhealthy: usize, sma
                 c.calls = v.clone();
                 c.raw = Some(enc(&v));
                 c.fail_write_at = Some(pos);
+                c.write_err_kind = rng.below(5) as u8;
                 c.cuts = random_cuts(rng, c.raw.as_ref().unwrap().len(), 2);
                 chain.extend((0..c.chunks(client).len()).map(|_| Ev::Deliver(i)));
             }
@@ -249,6 +250,7 @@ pub fn build(rng: &mut Rng, kind: &'static str, pos: usize, nhealthy: usize, sma
                 } else {
                     let answered = v.iter().filter(|k| !k.oneway && k.kind != Kind::Sub).count();
                     c.fail_write_at = Some(answered + rng.below(nitems));
+                    c.write_err_kind = rng.below(5) as u8;
                     raw.extend_from_slice(&enc(&[CallSpec { kind: Kind::Echo, seq: 61, oneway: false, more: false, payload: "behind".into() }]));
                 }
                 c.cuts = random_cuts(rng, raw.len(), 2);
@@ -259,6 +261,7 @@ pub fn build(rng: &mut Rng, kind: &'static str, pos: usize, nhealthy: usize, sma
                 if kind == "write-error-on-stream-item" && final_marked && rng.chance(2, 3) {
                     let answered = v.iter().filter(|k| !k.oneway && k.kind != Kind::Sub).count();
                     c.fail_write_at = Some(answered + nitems - 1);
+                    c.write_err_kind = rng.below(5) as u8;
                 }
                 let mut s: Vec<Ev> = (0..nitems).map(|n| Ev::Item { client, seq: 60, n: n as u32, continues: if final_marked && n + 1 == nitems { Some(false) } else { Some(true) } }).collect();
                 if rng.chance(2, 3) {
@@ -519,6 +522,7 @@ pub fn churn(rng: &mut Rng, n: usize, wake: bool) -> Scenario {
                 // subscriber whose first stream item is ready at once and can not be written
                 c.raw = Some(sub.bytes(client));
                 c.fail_write_at = Some(0);
+                c.write_err_kind = rng.below(5) as u8;
                 scn.steps.push(b(Ev::Accept(i)));
                 scn.steps.push(b(Ev::Item { client, seq: 1, n: 0, continues: Some(true) }));
                 scn.steps.push(q(Ev::Deliver(i)));
@@ -527,6 +531,7 @@ pub fn churn(rng: &mut Rng, n: usize, wake: bool) -> Scenario {
                 // subscriber that becomes unwritable at a later item
                 c.raw = Some(sub.bytes(client));
                 c.fail_write_at = Some(1);
+                c.write_err_kind = rng.below(5) as u8;
                 scn.steps.push(q(Ev::Accept(i)));
                 scn.steps.push(q(Ev::Deliver(i)));
                 scn.steps.push(q(Ev::Item { client, seq: 1, n: 0, continues: Some(true) }));
@@ -541,6 +546,7 @@ pub fn churn(rng: &mut Rng, n: usize, wake: bool) -> Scenario {
                 // a call whose reply can not be written
                 c.raw = Some(echo.bytes(client));
                 c.fail_write_at = Some(0);
+                c.write_err_kind = rng.below(5) as u8;
                 scn.steps.push(q(Ev::Accept(i)));
                 scn.steps.push(q(Ev::Deliver(i)));
             }
